@@ -7,8 +7,10 @@
 //!   bcsim gen --check Cnn --seed N --index I [--tier T]
 //!   bcsim selftest --checks C01,C02 --runs N --seed S
 
+mod bg;
 mod gen;
 mod interpose;
+mod lin;
 mod netscn;
 mod runner;
 mod scan;
